@@ -186,3 +186,34 @@ func wideIDs(r *prng.Rand, n int) []uint16 {
 	sort.Slice(ids, func(i, j int) bool { return ids[i] < ids[j] })
 	return ids
 }
+
+// sparseMembership draws a membership of m = n..n+2 small, non-contiguous identifiers (node id = party id)
+// and the n of them that take part in a key generation; in silent mode the participants are what the
+// membership selection returns (in a shuffled order when unsorted is set).
+func sparseMembership(r *prng.Rand, n int, silent, unsorted bool) (all, part, pickFixed []uint16) {
+	m := n + r.Intn(3)
+	seen := map[uint16]bool{}
+	for len(all) < m {
+		id := uint16(r.Intn(40))
+		if !seen[id] {
+			seen[id] = true
+			all = append(all, id)
+		}
+	}
+	sort.Slice(all, func(i, j int) bool { return all[i] < all[j] })
+	perm := r.Perm(m)[:n]
+	sort.Ints(perm)
+	for _, i := range perm {
+		part = append(part, all[i])
+	}
+	if silent {
+		pickFixed = append([]uint16(nil), part...)
+		if unsorted {
+			for i := len(pickFixed) - 1; i > 0; i-- {
+				j := r.Intn(i + 1)
+				pickFixed[i], pickFixed[j] = pickFixed[j], pickFixed[i]
+			}
+		}
+	}
+	return
+}
